@@ -9,7 +9,7 @@ import numpy
 from lib import common as C
 
 PROP = "C08"
-PROPS_FILES = ["Props/C08.v", "Props/C08_log.v"]
+PROPS_FILES = ["Props/C08.v", "Props/C08_log.v", "Props/C08_hist.v"]
 ASSUMPTIONS = [
   "exact arithmetic over Q in the model; the running code is compared to a relative 1e-9 on coordinates (it divides and multiplies doubles), "
   "exactly on counts, flags, strata and unchanged points; region membership on the running code within 1e-9 (DESIGN 7.0)",
@@ -20,10 +20,24 @@ ASSUMPTIONS = [
   "hit-and-run directions are used unnormalised in the model (the move is invariant under positive rescaling), so no square root is needed",
   "rounding at faces (points within a few ulp of a face, boxes so large that the absolute 1e-8 margins fall below one ulp) is outside the exact model",
 ]
+ASSUMPTIONS += [
+  "histories on one live ContinuousDomain (Model/DomainHist.v, Props/C08_hist.v): 'the constraints of the domain' are those handed over by the LATEST "
+  "set_constraint_list call (content of the list at the time of the call - a new list, or the list object passed before and edited in place since); a caller who "
+  "edits its list and does NOT call set_constraint_list again is outside the reading (the domain keeps the caller's list by reference: its is_constrained / SciPy "
+  "constraints would then follow the edit while its half-spaces would not)",
+  "the LP result of find_interior_point and the result of a call into aux/samplers.py enter the history machine as oracle arguments (their contracts are the "
+  "Chebyshev / sampler theorems of Props/C08.v); what the domain HANDS to the sampler (half-space rows, start point, box) is compared exactly",
+  "coordinates are compared to 1e-9 relative to max(1, |value|, the bounds of that coordinate) - on a coordinate ranging over 1e9 a value that should be 0 comes out as 1e-8",
+  "weights of magnitude <= 1e-9 are not generated (HiGHS drops LP coefficients that small); on boxes whose coordinate ranges differ by >= 1e5 the library's "
+  "interior-point LP solve sometimes reports a feasible set infeasible or a radius that is not maximal (both safe: nothing leaves the region; signature "
+  "C08:mixed-scales:chebyshev-lp-solved-inaccurately, reported only once registered as a known finding; ball-inside-polytope and centre-strictly-inside stay hard clauses)",
+]
 TRUSTED = ["tools/props/C08.py case generator, numpy.random / qmcpy / linprog scripting layer and the Q-literal printer",
-           "Model/RestrictCorr.v check function"]
+           "Model/RestrictCorr.v and Model/DomainHistCorr.v check functions"]
 HEADER = ("From Coq Require Import List QArith Bool ZArith.\nFrom LV Require Import Model.Restrict Model.Samplers Model.RestrictCorr.\n"
           "Open Scope Q_scope.")
+HIST_HEADER = ("From Coq Require Import List QArith Bool ZArith.\nFrom LV Require Import Model.Restrict Model.Samplers Model.RestrictCorr "
+               "Model.DomainHist Model.DomainHistCorr.\nOpen Scope Q_scope.")
 
 
 # ------------------------------------------------------------------------------------------ implementation access
@@ -184,53 +198,97 @@ def dy(rng, lo, hi, den):
   return rng.randint(int(lo * den), int(hi * den)) / den
 
 
-def gen_domain(rng, constrained=None, maxdim=4):
-  """Box with small-integer / dyadic data at one of several scales, constraints built around a strictly interior dyadic
-  point: thin slabs, nearly parallel faces, corners. Returns dict(bounds, cons, q, free) with free = unconstrained columns."""
-  dim = rng.randint(1, maxdim)
+def pow2(x):
+  """a non-zero double that is plus or minus a power of two (dividing by it is exact)"""
+  return x != 0 and math.frexp(abs(x))[0] == 0.5
+
+
+TINY = 2.0 ** -28     # 3.7e-9: below NumPy's isclose tolerance 1e-8, above the 1e-9 under which HiGHS drops a coefficient
+HUGE = 2.0 ** 27
+
+
+def gen_box(rng, maxdim=4, mindim=1, allow_huge=True):
+  """Box with small-integer / dyadic data at one of several scales and a strictly interior dyadic point q (sometimes next to a corner).
+  `huge`: one coordinate whose range is 2^27 times that of the others - a constraint that mentions it does so with a weight of a few
+  2^-28, so that weight * range is of the order of the other terms (a learning rate next to a number of steps)."""
+  dim = rng.randint(mindim, maxdim)
   scale = rng.choice([0.125, 1.0, 1.0, 16.0, 1024.0])
   bounds = []
   for _ in range(dim):
     lo = rng.randint(-4, 4) * scale
     bounds.append([lo, lo + rng.randint(1, 8) * scale])
+  huge = None
+  if allow_huge and dim >= 2 and scale == 1.0 and rng.random() < 0.3:
+    huge = rng.randrange(dim)
+    lo = rng.randint(-4, 4) * HUGE
+    bounds[huge] = [lo, lo + rng.randint(1, 8) * HUGE]
   corner = rng.random() < 0.25
   qpt = []
   for lo, hi in bounds:
     k = rng.choice([1, 15]) if corner else rng.randint(1, 15)
     qpt.append(lo + (hi - lo) * k / 16.0)
+  return dict(bounds=bounds, q=qpt, scale=scale, huge=huge)
+
+
+def gen_cons(rng, B):
+  """A constraint set (possibly empty in dimension 1) around the interior point of the box B: 1-4 rows with two or more non-zero weights -
+  small integers, or dyadic fractions whose absolute values sum to at most 1 (a weighted average), a tiny weight on the huge coordinate;
+  thin slabs, nearly parallel faces, corners."""
+  bounds, qpt, scale, huge = B["bounds"], B["q"], B["scale"], B["huge"]
+  dim = len(bounds)
+  cons = []
+  if dim < 2:
+    return cons
+  style = rng.choice(["plain", "plain", "slab", "parallel"])
+  wstyle = rng.choice(["int", "int", "frac", "frac", "mixed"])
+  ncols = list(range(dim))
+  if dim >= 3 and rng.random() < 0.5:
+    ncols = sorted(rng.sample(range(dim), rng.randint(2, dim - 1)))
+  if huge is not None and huge not in ncols and rng.random() < 0.7:
+    ncols = sorted(ncols + [huge])
+
+  def weight(j):
+    if j == huge:
+      return rng.choice([-2, -1, 0, 1, 2]) * TINY
+    if wstyle == "frac" or (wstyle == "mixed" and rng.random() < 0.5):
+      return rng.choice([-0.5, -0.25, -0.125, 0.0, 0.125, 0.25, 0.25, 0.5])
+    return float(rng.randint(-3, 3))
+
+  def row():
+    while True:
+      w = [0.0] * dim
+      for j in ncols:
+        w[j] = weight(j)
+      if sum(1 for x in w if x) >= 2:
+        return w
+
+  def add(w, margin):
+    mag = max(abs(x) for j, x in enumerate(w) if j != huge and x) if any(x for j, x in enumerate(w) if j != huge) else 1.0
+    cons.append(([float(x) for x in w], sum(wi * qi for wi, qi in zip(w, qpt)) - margin * min(1.0, mag)))
+  w = row()
+  m = rng.choice([0.5, 1.0, 2.0, 0.0625]) * scale
+  add(w, m)
+  if style == "slab":
+    add([-x for x in w], rng.choice([0.03125, 0.25]) * scale)
+  elif style == "parallel":
+    w2 = [8 * x for x in w]
+    j = rng.choice([j for j in ncols if j != huge] or ncols)
+    w2[j] += 1
+    if sum(1 for x in w2 if x) >= 2:
+      add(w2, 8 * m)
+  for _ in range(rng.randint(0, 2)):
+    add(row(), rng.choice([0.25, 1.0, 4.0]) * scale)
+  return cons
+
+
+def gen_domain(rng, constrained=None, maxdim=4):
+  """Box and one constraint set. Returns dict(bounds, cons, q, free, scale, huge) with free = unconstrained columns."""
+  B = gen_box(rng, maxdim, allow_huge=constrained is not False)   # (the unit-cube samplers compare coordinates near 0 to an absolute 1e-9)
   if constrained is None:
     constrained = rng.random() < 0.8
-  cons = []
-  if constrained and dim >= 2:
-    style = rng.choice(["plain", "plain", "slab", "parallel"])
-    ncols = list(range(dim))
-    if dim >= 3 and rng.random() < 0.5:
-      ncols = sorted(rng.sample(range(dim), rng.randint(2, dim - 1)))
-    def row():
-      while True:
-        w = [0] * dim
-        for j in ncols:
-          w[j] = rng.randint(-3, 3)
-        if sum(1 for x in w if x) >= 2:
-          return w
-    def add(w, margin):
-      cons.append(([float(x) for x in w], sum(wi * qi for wi, qi in zip(w, qpt)) - margin))
-    w = row()
-    m = rng.choice([0.5, 1.0, 2.0, 0.0625]) * scale
-    add(w, m)
-    if style == "slab":
-      add([-x for x in w], rng.choice([0.03125, 0.25]) * scale)
-    elif style == "parallel":
-      w2 = list(w)
-      j = rng.choice([j for j in ncols])
-      w2 = [8 * x for x in w2]
-      w2[j] += 1
-      if sum(1 for x in w2 if x) >= 2:
-        add(w2, 8 * m)
-    for _ in range(rng.randint(0, 2)):
-      add(row(), rng.choice([0.25, 1.0, 4.0]) * scale)
-  free = [j for j in range(dim) if all(w[j] == 0 for w, _ in cons)]
-  return dict(bounds=bounds, cons=cons, q=qpt, free=free, scale=scale)
+  cons = gen_cons(rng, B) if constrained else []
+  free = [j for j in range(len(B["bounds"])) if all(w[j] == 0 for w, _ in cons)]
+  return dict(bounds=B["bounds"], cons=cons, q=B["q"], free=free, scale=B["scale"], huge=B["huge"])
 
 
 def gen_points(rng, D, n):
@@ -254,7 +312,7 @@ def gen_points(rng, D, n):
     elif kind == "face" and cons:
       w, r = rng.choice(cons)
       p = [lo + (hi - lo) * rng.randint(0, 16) / 16.0 for lo, hi in b]
-      js = [j for j, x in enumerate(w) if abs(x) == 1]
+      js = [j for j, x in enumerate(w) if pow2(x) and abs(x) >= 0.125]
       if js:
         j = rng.choice(js)
         rest = sum(w[i] * p[i] for i in range(len(p)) if i != j)
@@ -299,7 +357,7 @@ def gen_case(rng):
       # viable point on a constraint face (acceptable, hence pushed toward the centre) and a point beyond that face;
       # "nearface": strictly inside but within / just beyond the 1e-8 boundary tolerance of the face (2^-27 < 1e-8 < 2^-26)
       vp = list(D["q"])
-      cand = [(w, r, j) for w, r in D["cons"] for j, x in enumerate(w) if abs(x) == 1]
+      cand = [(w, r, j) for w, r in D["cons"] for j, x in enumerate(w) if pow2(x) and abs(x) >= 0.125]
       if cand:
         w, r, j = rng.choice(cand)
         vp[j] = (r - sum(w[i] * vp[i] for i in range(len(vp)) if i != j)) / w[j]
@@ -384,6 +442,294 @@ def gen_case(rng):
     w, r = cons[0]
     cons.append(([-x for x in w], -r + rng.choice([0.0, 1.0]) * D["scale"]))   # zero-width slab or empty set
   return "chebyreal", dict(bounds=D["bounds"], cons=cons)
+
+
+# ------------------------------------------------------------------------------------------ histories on one live domain object
+def gen_queries(rng, B, cons, k):
+  """k operations that leave the constraint set alone: queries, the hit-and-run flag, constrained sampling"""
+  out = []
+  D = dict(bounds=B["bounds"], cons=cons, q=B["q"], scale=B["scale"])
+  dim = len(B["bounds"])
+  for _ in range(k):
+    op = rng.choice(["restrict", "restrict", "near", "uncon", "fixok", "accept", "sample", "force"])
+    if op == "restrict":
+      n = rng.randint(1, 4)
+      vk = rng.choice(["none", "none", "q", "pt", "corner"])
+      vp = None if vk == "none" else (list(B["q"]) if vk == "q" else gen_points(rng, D, 1)[0])
+      if vk == "corner":
+        vp = [float(rng.choice(lh)) for lh in B["bounds"]]
+      out.append(dict(op="restrict", points=gen_points(rng, D, n), viable=vp, on=rng.random() < 0.4, us=[rng.randint(0, 63) / 64.0 for _ in range(n)]))
+    elif op == "near":
+      n = rng.randint(1, 3)
+      out.append(dict(op="near", point=list(B["q"]), on=rng.random() < 0.4, zs=[[rng.randint(-32, 32) / 16.0 for _ in range(dim)] for _ in range(n)],
+                      us=[rng.randint(0, 63) / 64.0 for _ in range(n)], std=rng.choice([0.25, 1.0]), seed=rng.randrange(10 ** 6)))
+    elif op == "uncon":
+      out.append(dict(op="uncon"))
+    elif op == "fixok":
+      ks = rng.sample(range(dim), rng.randint(1, min(2, dim)))
+      fx = []
+      for j in sorted(ks):
+        lo, hi = B["bounds"][j]
+        fx.append([j, rng.choice([lo, hi, lo + (hi - lo) * rng.randint(0, 8) / 8.0, lo + (hi - lo) * rng.randint(0, 8) / 8.0, hi + (hi - lo)])])
+      out.append(dict(op="fixok", fixed=fx))
+    elif op == "accept":
+      out.append(dict(op="accept", x=gen_points(rng, D, 1)[0]))
+    elif op == "force":
+      out.append(dict(op="force", value=rng.random() < 0.6))
+    elif cons:
+      out.append(dict(op="sample", n=rng.randint(1, 4), seed=rng.randrange(10 ** 6)))
+  return out
+
+
+def gen_hist(rng):
+  """One box, 1-3 constraint sets in a row on the same domain object (all around the same interior point, so each is feasible), handed over
+  as a new list, as the SAME list object re-filled in place, or as the same list whose entries were edited in place; now and then the
+  constraints are cleared in between; queries after every set; now and then an infeasible set at the end (it must be refused)."""
+  B = gen_box(rng, maxdim=4, mindim=2)
+  steps, cons = [], []
+  nsets = rng.randint(1, 3)
+  for k in range(nsets):
+    if k > 0 and rng.random() < 0.15:
+      cons = []
+      steps.append(dict(op="set", cons=[], how=rng.choice(["fresh", "same"]), feasible=True))
+      steps += gen_queries(rng, B, cons, rng.randint(1, 2))
+    cons = gen_cons(rng, B)
+    steps.append(dict(op="set", cons=cons, how="fresh" if k == 0 else rng.choice(["fresh", "same", "same", "edit", "edit"]), feasible=True))
+    steps += gen_queries(rng, B, cons, rng.randint(1, 4))
+  if rng.random() < 0.2:
+    w, r = cons[0]
+    bad = list(cons) + [([-x for x in w], -r + rng.choice([0.0, 1.0]) * B["scale"])]     # zero-width slab or empty set
+    steps.append(dict(op="set", cons=bad, how=rng.choice(["fresh", "same", "edit"]), feasible=False))
+  return dict(bounds=B["bounds"], q=B["q"], steps=steps)
+
+
+def run_hist(inp, probe=False):
+  """Run the operations on ONE ContinuousDomain; one observation per operation (the run stops after a set_constraint_list that raised).
+  probe: after an `uncon` / accepted `fixok` observation that lists a coordinate some current constraint gives a non-zero weight, also
+  return the points the forced hit-and-run branch / the fixed wrapper hand out (for the independent oracle)."""
+  dm, smp, geo = _lib()
+  d = dm.ContinuousDomain(numpy.array(inp["bounds"], dtype=float))
+  dim = len(inp["bounds"])
+  L = []                         # the caller's list object
+  cons_now, obs = [], []
+
+  def entry(c):
+    return dict(weights=numpy.array(c[0], dtype=float), rhs=float(c[1]))
+  for st in inp["steps"]:
+    op = st["op"]
+    if op == "set":
+      new = [entry(c) for c in st["cons"]]
+      if st["how"] == "fresh":
+        L = list(new)
+      elif st["how"] == "same":
+        L[:] = new
+      else:                      # edit the entries the domain already holds, append / drop the rest
+        for i, e in enumerate(new):
+          if i < len(L):
+            L[i]["weights"], L[i]["rhs"] = e["weights"], e["rhs"]
+          else:
+            L.append(e)
+        del L[len(new):]
+      try:
+        with warnings.catch_warnings():
+          warnings.simplefilter("ignore")
+          d.set_constraint_list(L)
+        raised = False
+      except AssertionError:
+        raised = True
+      cons_now = list(st["cons"])
+      obs.append(dict(op="set", raised=raised, centre=None if d._cheby_center is None else numpy.asarray(d._cheby_center, dtype=float).tolist()))
+      if raised:
+        break
+    elif op == "force":
+      d.force_hitandrun_sampling = bool(st["value"])
+      obs.append(dict(op="force"))
+    elif op == "restrict":
+      P = numpy.array(st["points"], dtype=float)
+      P0 = P.copy()
+      vp = None if st["viable"] is None else numpy.array(st["viable"], dtype=float)
+      vp0 = None if vp is None else vp.copy()
+      sc = Script(us=st["us"]) if "us" in st else Script(fall_seed=st["seed"])
+      with sc.active():
+        out = d.restrict_points_to_domain(P, st["on"], vp)
+      obs.append(dict(op="restrict", out=numpy.asarray(out).tolist(), used=sc.used,
+                      inputs_unchanged=bool((P == P0).all() and (vp is None or (vp == vp0).all()))))
+    elif op == "near":
+      n = st["n"] if "n" in st else len(st["zs"])
+      pt0 = numpy.array(st["point"], dtype=float)
+      sc = Script(normal=[st["zs"]], us=st["us"], fall_seed=st["seed"]) if "zs" in st else Script(fall_seed=st["seed"])
+      with sc.active():
+        out = d.generate_random_points_near_point(n, pt0, st["std"], st["on"])
+      obs.append(dict(op="near", out=numpy.asarray(out).tolist(), fellback=not any(c[0] == "normal" for c in sc.calls),
+                      inputs_unchanged=bool((pt0 == numpy.array(st["point"], dtype=float)).all())))
+    elif op == "accept":
+      obs.append(dict(op="accept", value=bool(d.check_point_acceptable(numpy.array(st["x"], dtype=float)))))
+    elif op == "uncon":
+      idx = [int(i) for i in d.one_hot_unconstrained_indices]
+      o = dict(op="uncon", idx=idx)
+      if probe and any(any(float(c[0][j]) != 0.0 for c in cons_now) for j in idx):
+        o["probe"] = _probe_forced(d, st.get("seed", 0))
+      obs.append(o)
+    elif op == "fixok":
+      fx = {int(k): float(v) for k, v in st["fixed"]}
+      try:
+        w = dm.FixedIndicesOnContinuousDomain(d, fx)
+        ok = True
+      except AssertionError:
+        ok = False
+      o = dict(op="fixok", accepted=ok)
+      if probe and ok and cons_now and any(any(float(c[0][j]) != 0.0 for c in cons_now) for j in fx):
+        state = numpy.random.get_state()
+        numpy.random.seed(st.get("seed", 0))
+        try:
+          with warnings.catch_warnings():
+            warnings.simplefilter("ignore")
+            pts = numpy.array([inp["q"]] + [[lo + (hi - lo) * t for lo, hi in inp["bounds"]] for t in (0.0, 0.5, 1.0)], dtype=float)
+            o["probe"] = numpy.asarray(w.restrict_points_to_domain(pts)).tolist()
+        finally:
+          numpy.random.set_state(state)
+      obs.append(o)
+    elif op == "sample":
+      rec = {}
+      real = (dm.generate_hitandrun_random_points, dm.generate_uniform_random_points_rejection_sampling_with_hitandrun_padding,
+              dm.generate_uniform_random_points)
+
+      def spy_hit(num, x0, A, b, __f=real[0]):
+        out = __f(num, x0, A, b)
+        rec.update(kind="hit", A=numpy.array(A, dtype=float).tolist(), b=numpy.array(b, dtype=float).tolist(),
+                   x0=numpy.array(x0, dtype=float).tolist(), raw=numpy.array(out, dtype=float).tolist(), ok=True)
+        return out
+
+      def spy_pad(num, bounds, A, b, x0=None, __f=real[1]):
+        out, ok = __f(num, bounds, A, b, x0)
+        rec.update(kind="pad", A=numpy.array(A, dtype=float).tolist(), b=numpy.array(b, dtype=float).tolist(), box=numpy.array(bounds, dtype=float).tolist(),
+                   x0=[] if x0 is None else numpy.array(x0, dtype=float).tolist(), raw=numpy.array(out, dtype=float).tolist(), ok=bool(ok))
+        return out, ok
+
+      def spy_unif(num, bounds, *a, __f=real[2], **k):
+        out = __f(num, bounds, *a, **k)
+        rec.update(vals=numpy.array(out, dtype=float).reshape(num, -1).tolist(), box=numpy.array(bounds, dtype=float).reshape(-1, 2).tolist())
+        return out
+      forced = bool(d.force_hitandrun_sampling)
+      state = numpy.random.get_state()
+      numpy.random.seed(st["seed"])
+      (dm.generate_hitandrun_random_points, dm.generate_uniform_random_points_rejection_sampling_with_hitandrun_padding,
+       dm.generate_uniform_random_points) = spy_hit, spy_pad, spy_unif
+      try:
+        with warnings.catch_warnings():
+          warnings.simplefilter("ignore")
+          out = d.generate_quasi_random_points_in_domain(st["n"])
+      finally:
+        (dm.generate_hitandrun_random_points, dm.generate_uniform_random_points_rejection_sampling_with_hitandrun_padding,
+         dm.generate_uniform_random_points) = real
+        numpy.random.set_state(state)
+      if "kind" not in rec:
+        raise C.TieBroken("the constrained branch of generate_quasi_random_points_in_domain called neither the hit-and-run sampler nor rejection sampling with padding")
+      obs.append(dict(op="sample", forced=forced, branch=rec["kind"], A=rec["A"], b=rec["b"], x0=rec["x0"], box=rec.get("box", []), raw=rec["raw"], ok=rec["ok"],
+                      vals=rec.get("vals", [[] for _ in rec["raw"]]), out=numpy.asarray(out, dtype=float).tolist(), force_after=bool(d.force_hitandrun_sampling)))
+    else:
+      raise ValueError(op)
+  return obs
+
+
+def _probe_forced(d, seed):
+  flag, state = d.force_hitandrun_sampling, numpy.random.get_state()
+  numpy.random.seed(seed)
+  d.force_hitandrun_sampling = True
+  try:
+    with warnings.catch_warnings():
+      warnings.simplefilter("ignore")
+      return numpy.asarray(d.generate_quasi_random_points_in_domain(24), dtype=float).tolist()
+  finally:
+    d.force_hitandrun_sampling = flag
+    numpy.random.set_state(state)
+
+
+def hist_case(inp, obs):
+  """The Coq term of one history: (operation, observation) pairs for Model/DomainHistCorr.v."""
+  dim = len(inp["bounds"])
+  pairs = []
+  for st, o in zip(inp["steps"], obs):
+    op = st["op"]
+    if op == "set":
+      cl = C.listlit(st["cons"], lambda wr: f"({pt(wr[0])}, {q(wr[1])})")
+      c = o["centre"] if (o["centre"] is not None and st["cons"]) else []
+      pairs.append(f"(DSet {cl} {pt(c)} {C.blit(not o['raised'])}, {'BErr' if o['raised'] else 'BNone'})")
+    elif op == "force":
+      pairs.append(f"(DForce {C.blit(st['value'])}, BNone)")
+    elif op == "restrict":
+      pairs.append(f"(DRestrict {C.optlit(st['viable'], pt)} {C.blit(st['on'])} {pt(st['us'])} {pts(st['points'])}, BPts {pts(o['out'])} {C.nlit(o['used'])})")
+    elif op == "near":
+      pairs.append(f"(DNear {pt(st['point'])} {C.blit(st['on'])} {pts(st['zs'])} {pt(st['us'])}, BNear {pts(o['out'])} {C.blit(o['fellback'])})")
+    elif op == "accept":
+      pairs.append(f"(DAccept {pt(st['x'])}, BBool {C.blit(o['value'])})")
+    elif op == "uncon":
+      pairs.append(f"(DUncon, BIdx {C.listlit(o['idx'], C.nlit)})")
+    elif op == "fixok":
+      pairs.append(f"(DFixOk {fixlit(st['fixed'])}, BBool {C.blit(o['accepted'])})")
+    elif op == "sample":
+      pairs.append(f"(DSample {C.nlit(st['n'])} {pts(o['raw'])} {C.blit(o['ok'])} {pts(o['vals'])}, "
+                   f"BSample {C.blit(o['branch'] == 'hit')} {hslit(o['A'], o['b'])} {pt(o['x0'])} {bslit(o['box'])} {pts(o['out'])} {C.blit(o['force_after'])})")
+  return f"CHist {bslit(inp['bounds'])} {C.listlit(pairs)}"
+
+
+def hist_branch(inp, obs):
+  tags = set()
+  first = True
+  for st, o in zip(inp["steps"], obs):
+    if st["op"] == "set":
+      tags.add("hist:set:" + ("first" if first else st["how"]) + (":cleared" if not st["cons"] else "") + (":refused" if o["raised"] else ""))
+      first = False
+    elif st["op"] == "sample":
+      tags.add("hist:sample:" + o["branch"])
+    else:
+      tags.add("hist:" + st["op"])
+  return sorted(tags)
+
+
+def judge_hist(inp, obs):
+  """Independent oracle on one history: every point handed out lies in the box and satisfies the constraints of the LATEST
+  set_constraint_list (plain-Python membership); a feasible set is accepted, an empty / zero-width one refused."""
+  bounds = inp["bounds"]
+  cons = []
+
+  def bad_row(rows):
+    for row in rows:
+      if not all(math.isfinite(x) for x in row) or not region_ok(bounds, cons, row):
+        return row
+    return None
+  for k, (st, o) in enumerate(zip(inp["steps"], obs)):
+    op = st["op"]
+    where = dict(history=inp)
+    if op == "set":
+      cons = [(list(c[0]), float(c[1])) for c in st["cons"]]
+      how = "new list" if st["how"] == "fresh" else "same list object, edited in place"
+      if o["raised"] and st["feasible"]:
+        if mixed_scales(bounds):
+          return refused_feasible("history", where, bounds, dict(step=k, how=how))
+        return _fail("history", where, "set_constraint_list refused a feasible constraint set", dict(step=k, how=how), "accepted")
+      if not o["raised"] and not st["feasible"]:
+        return _fail("history", where, "an empty or zero-width constraint set was accepted on a live domain", dict(step=k, how=how), "AssertionError from set_constraint_list")
+    elif op in ("restrict", "near", "sample"):
+      if o.get("inputs_unchanged") is False:
+        return _fail("history", where, "a caller-owned input array was modified", dict(step=k, op=op), "inputs left alone")
+      r = bad_row(o["out"])
+      if r is not None:
+        return _fail("history", where, f"{op}: point outside the region of the constraints set last", dict(step=k, point=r), "inside bounds and the current constraints (1e-9)")
+      want = len(st["points"]) if op == "restrict" else (st["n"] if "n" in st else len(st["zs"]))
+      if len(o["out"]) != want:
+        return _fail("history", where, f"{op}: wrong number of points", dict(step=k, got=len(o["out"])), want)
+      if op == "restrict":
+        for p, x in zip(st["points"], o["out"]):
+          if strictly_inside(bounds, cons, p) and list(p) != list(x):
+            return _fail("history", where, "strictly feasible point changed by projection", dict(step=k, point=p, out=x), p)
+    elif op in ("uncon", "fixok") and o.get("probe") is not None:
+      r = bad_row(o["probe"])
+      if r is not None:
+        what = ("forced hit-and-run sampling redraws a constrained coordinate: point outside the region" if op == "uncon"
+                else "a fixed-coordinate wrapper admitted for a constrained coordinate returns a point outside the region")
+        return _fail("history", where, what, dict(step=k, point=r), "inside bounds and the current constraints (1e-9)")
+  return None
 
 
 def halfspace_matrix(bounds, cons):
@@ -631,6 +977,9 @@ def correspondence(ctx):
       dis.append(dict(what=f"C08 correspondence ({kind}): the scripted run no longer matches the code's use of its random sources: {e}", kind=kind, input=inp, observed=str(e)))
       continue
     except Exception as e:
+      if isinstance(e, AssertionError) and kind != "chebyreal" and inp.get("cons") and mixed_scales(inp["bounds"]):
+        dist["skipped:mixed-scales-set-refused"] = dist.get("skipped:mixed-scales-set-refused", 0) + 1    # see refused_feasible
+        continue
       dis.append(dict(what=f"C08 correspondence ({kind}): implementation raised {type(e).__name__}: {e}", kind=kind, input=inp, observed=repr(e)))
       continue
     if out.get("inputs_unchanged") is False:
@@ -652,48 +1001,111 @@ def correspondence(ctx):
     k, inp, out = meta[i]
     dis.append(dict(what=f"C08 correspondence case {i} ({k}): implementation output differs from Model.Restrict / Model.Samplers or fails its specification",
                     kind=k, input=inp, observed=out))
+  # histories on one live domain object against the state machine of Model/DomainHist.v
+  hcases, hmeta = [], []
+  for _ in range(ctx.n(80, 1200)):
+    inp = gen_hist(ctx.rng)
+    try:
+      obs = run_hist(inp)
+    except C.TieBroken as e:
+      dis.append(dict(what=f"C08 correspondence (hist): {e}", kind="hist", input=inp, observed=str(e)))
+      continue
+    except Exception as e:
+      dis.append(dict(what=f"C08 correspondence (hist): implementation raised {type(e).__name__}: {e}", kind="hist", input=inp, observed=repr(e)))
+      continue
+    if any(o.get("inputs_unchanged") is False for o in obs):
+      dis.append(dict(what="C08 correspondence (hist): a caller-owned input array was modified", kind="hist", input=inp, observed=obs))
+    hcases.append(hist_case(inp, obs))
+    hmeta.append((inp, obs))
+    for b in hist_branch(inp, obs):
+      dist[b] = dist.get(b, 0) + 1
+    h = C.canon_hash(["hist", inp])
+    if h not in seen and sum(1 for st in inp["steps"] if st["op"] == "set") >= 2:
+      nontriv += 1
+    seen.add(h)
+  for i in C.run_cases("C08h", HIST_HEADER, "DomainHistCorr.case", "DomainHistCorr.check", hcases, shard=12):
+    inp, obs = hmeta[i]
+    dis.append(dict(what=f"C08 correspondence history {i}: a live domain object answers differently from Model.DomainHist (the constraints set last) or leaves their region",
+                    kind="hist", input=inp, observed=obs))
+  n += len(hcases)
   return dict(evaluations=n, distinct_nontrivial=nontriv,
               rule="boxes of 1-4 dimensions at scales 1/8..1024 with dyadic data; 0-4 integer-weight constraints (>= 2 non-zero weights) around an interior "
                    "dyadic point: thin slabs, nearly parallel faces, corners, unconstrained columns; points inside / on faces / corners / far outside; viable "
                    "point none / interior / boundary / infeasible; on_constraint both ways; scripted uniforms k/64, normals k/16, permutations, cyclic candidate "
                    "blocks, recorded qmcpy rows, scripted and real LP solver; non-trivial = a constrained restriction that moved a point, a restricted "
-                   "perturbation, >= 2 sampled points, any LP case; distinct by hash of the canonical input",
+                   "perturbation, >= 2 sampled points, any LP case; distinct by hash of the canonical input; weights are small integers, dyadic fractions "
+                   "with absolute row sum <= 1, or a few 2^-28 on a coordinate whose range is 2^27 times the others'; HISTORIES on one live domain object: 1-3 "
+                   "constraint sets in a row (new list / the same list object re-filled or edited in place / cleared / an infeasible one), queries, the "
+                   "hit-and-run flag and constrained sampling (what is handed to the sampler is compared) in between; non-trivial = at least two sets",
               samples=[dict(kind=k, input=i, impl_output=o) for k, i, o in meta[:3]], distribution=dist, disagreements=dis)
 
 
 # ------------------------------------------------------------------------------------------ independent oracle (searcher)
-def real_domain(rng, maxdim=6):
-  """Real-valued boxes over many scales; constraints with >= 2 non-zero real weights around an interior point, radius known."""
+def real_box(rng, maxdim=6):
+  """Real-valued box over many scales with an interior point (sometimes next to a corner).  A quarter of the boxes mix coordinate scales:
+  one or more coordinates range over 1e3 / 1e6 / 2e8 times the width of the others (constraints then carry correspondingly small weights)."""
   dim = rng.randint(2, maxdim)
   scale = 10.0 ** rng.randint(-3, 5)
+  ratio = [1.0] * dim
+  if rng.random() < 0.25:
+    scale = 1.0
+    for j in rng.sample(range(dim), rng.randint(1, dim - 1)):
+      ratio[j] = rng.choice([1e3, 1e6, 2e8, 2e8])
   bounds = []
-  for _ in range(dim):
-    lo = rng.uniform(-5, 5) * scale
-    bounds.append([lo, lo + rng.uniform(0.1, 10) * scale])
-  qp = [lo + (hi - lo) * rng.uniform(0.1, 0.9) for lo, hi in bounds]
-  cons = []
-  style = rng.choice(["none", "plain", "plain", "slab", "parallel", "corner"])
-  if style == "corner":
+  for j in range(dim):
+    lo = rng.uniform(-5, 5) * scale * ratio[j]
+    bounds.append([lo, lo + rng.uniform(0.1, 10) * scale * ratio[j]])
+  if rng.random() < 1.0 / 6:
     qp = [lo + (hi - lo) * rng.choice([0.02, 0.98]) for lo, hi in bounds]
-  if style != "none":
-    def row():
-      w = [0.0] * dim
-      for j in rng.sample(range(dim), rng.randint(2, dim)):
-        w[j] = rng.choice([-1, 1]) * rng.uniform(0.2, 3)
-      return w
-    def add(w, margin):
-      nrm = math.sqrt(sum(x * x for x in w))
-      cons.append((w, sum(wi * qi for wi, qi in zip(w, qp)) - margin * nrm))
-    w = row()
-    m = rng.uniform(0.01, 0.5) * scale
-    add(w, m)
-    if style == "slab":
-      add([-x for x in w], rng.uniform(0.001, 0.05) * scale)
-    if style == "parallel":
-      add([x * (1 + rng.uniform(-1e-3, 1e-3)) for x in w], m)
-    for _ in range(rng.randint(0, 2)):
-      add(row(), rng.uniform(0.01, 1) * scale)
-  return dict(bounds=bounds, cons=cons, q=qp, scale=scale)
+  else:
+    qp = [lo + (hi - lo) * rng.uniform(0.1, 0.9) for lo, hi in bounds]
+  return dict(bounds=bounds, q=qp, scale=scale, ratio=ratio)
+
+
+def real_weight(rng, B, j, frac=False):
+  """a non-zero weight for coordinate j: of order 1 (0.02 .. 0.3 when frac: absolute row sums at most 1), divided by the coordinate's scale
+  ratio (never below 2e-9: HiGHS drops LP coefficients of 1e-9 and less)"""
+  r = B["ratio"][j]
+  if r > 1e7:
+    return rng.choice([-1, 1]) * rng.uniform(0.4, 2.0) / r
+  return rng.choice([-1, 1]) * rng.uniform(0.2, 3) * (0.1 if frac and r == 1.0 else 1.0) / r
+
+
+def real_cons(rng, B, style=None):
+  """1-4 constraints with >= 2 non-zero real weights around the interior point of B (the point keeps a known distance from every face)."""
+  bounds, qp, scale = B["bounds"], B["q"], B["scale"]
+  dim = len(bounds)
+  cons = []
+  style = style or rng.choice(["plain", "plain", "slab", "parallel"])
+  frac = rng.random() < 0.3
+
+  def row():
+    w = [0.0] * dim
+    for j in rng.sample(range(dim), rng.randint(2, dim)):
+      w[j] = real_weight(rng, B, j, frac)
+    return w
+
+  def add(w, margin):
+    nrm = math.sqrt(sum((x * r) ** 2 for x, r in zip(w, B["ratio"])))
+    cons.append((w, sum(wi * qi for wi, qi in zip(w, qp)) - margin * nrm))
+  w = row()
+  m = rng.uniform(0.01, 0.5) * scale
+  add(w, m)
+  if style == "slab":
+    add([-x for x in w], rng.uniform(0.001, 0.05) * scale)
+  if style == "parallel":
+    add([x * (1 + rng.uniform(-1e-3, 1e-3)) for x in w], m)
+  for _ in range(rng.randint(0, 2)):
+    add(row(), rng.uniform(0.01, 1) * scale)
+  return cons
+
+
+def real_domain(rng, maxdim=6):
+  """A box and (five times out of six) one constraint set."""
+  B = real_box(rng, maxdim)
+  style = rng.choice(["none", "plain", "plain", "slab", "parallel", "plain"])
+  cons = [] if style == "none" else real_cons(rng, B, style)
+  return dict(bounds=B["bounds"], cons=cons, q=B["q"], scale=B["scale"], ratio=B["ratio"])
 
 
 def real_points(rng, D, n):
@@ -707,15 +1119,67 @@ def real_points(rng, D, n):
     elif k < 0.55:
       out.append([rng.choice([lo, hi]) for lo, hi in D["bounds"]])
     elif k < 0.75:
-      out.append([rng.choice([-1, 1]) * rng.uniform(10, 1e4) * D["scale"] for _ in D["bounds"]])
+      out.append([rng.choice([-1, 1]) * rng.uniform(10, 1e4) * D["scale"] * r for r in D["ratio"]])
     else:
       out.append([lo + (hi - lo) * rng.uniform(-1, 2) for lo, hi in D["bounds"]])
   return out
 
 
+def real_queries(rng, B, cons, k):
+  out = []
+  D = dict(bounds=B["bounds"], cons=cons, q=B["q"], scale=B["scale"], ratio=B["ratio"])
+  dim = len(B["bounds"])
+  for _ in range(k):
+    op = rng.choice(["restrict", "restrict", "near", "uncon", "fixok", "sample", "sample", "force"])
+    seed = rng.randrange(2 ** 31)
+    if op == "restrict":
+      vk = rng.random()
+      out.append(dict(op="restrict", points=real_points(rng, D, rng.randint(1, 8)), viable=None if vk < 0.5 else (list(B["q"]) if vk < 0.7 else real_points(rng, D, 1)[0]),
+                      on=rng.random() < 0.4, seed=seed))
+    elif op == "near":
+      out.append(dict(op="near", point=list(B["q"]), n=rng.randint(1, 8), std=10.0 ** rng.randint(-3, 1), on=rng.random() < 0.4, seed=seed))
+    elif op == "uncon":
+      out.append(dict(op="uncon", seed=seed))
+    elif op == "fixok":
+      fx = []
+      for j in sorted(rng.sample(range(dim), rng.randint(1, min(2, dim)))):
+        lo, hi = B["bounds"][j]
+        fx.append([j, lo + (hi - lo) * rng.choice([0.0, 0.25, 1.0, rng.random()])])
+      out.append(dict(op="fixok", fixed=fx, seed=seed))
+    elif op == "force":
+      out.append(dict(op="force", value=rng.random() < 0.6))
+    elif cons:
+      out.append(dict(op="sample", n=rng.randint(1, 10), seed=seed))
+  return out
+
+
+def real_hist(rng):
+  """Searcher counterpart of gen_hist: real-valued constraint sets replaced on one live domain (new list / same list object re-filled or
+  edited in place / cleared), an infeasible set now and then (at any position: it must be refused), queries after every set."""
+  B = real_box(rng, maxdim=5)
+  steps, cons = [], []
+  for k in range(rng.randint(2, 3)):
+    if k > 0 and rng.random() < 0.12:
+      cons = []
+      steps.append(dict(op="set", cons=[], how=rng.choice(["fresh", "same"]), feasible=True))
+      steps += real_queries(rng, B, cons, 1)
+    if k > 0 and rng.random() < 0.15:
+      base = cons or real_cons(rng, B)
+      w, r = base[0]
+      gap = rng.choice([0.0, rng.uniform(1e-3, 1) * B["scale"] * math.sqrt(sum((x * t) ** 2 for x, t in zip(w, B["ratio"])))])
+      steps.append(dict(op="set", cons=list(base) + [([-x for x in w], -r + gap)], how=rng.choice(["fresh", "same", "edit"]), feasible=False))
+      break
+    cons = real_cons(rng, B)
+    steps.append(dict(op="set", cons=cons, how="fresh" if k == 0 else rng.choice(["fresh", "same", "same", "edit", "edit"]), feasible=True))
+    steps += real_queries(rng, B, cons, rng.randint(1, 4))
+  return dict(bounds=B["bounds"], q=B["q"], steps=steps)
+
+
 def gen_search(rng):
-  kind = rng.choices(["restrict", "near", "sampler", "sampler_cons", "lhs", "grid", "direct", "cheby", "cheby_bad", "fixed_cons"],
-                     weights=[30, 12, 12, 8, 8, 5, 8, 10, 7, 5])[0]
+  kind = rng.choices(["restrict", "near", "sampler", "sampler_cons", "lhs", "grid", "direct", "cheby", "cheby_bad", "fixed_cons", "history"],
+                     weights=[30, 12, 12, 10, 8, 5, 12, 10, 7, 6, 12])[0]
+  if kind == "history":
+    return kind, dict(history=real_hist(rng))
   D = real_domain(rng)
   if kind == "fixed_cons":
     # a fixed-coordinate wrapper asked to fix SEVERAL coordinates of a constrained domain, a constrained one among them in any position of the
@@ -770,6 +1234,14 @@ def gen_search(rng):
       inp.update(opts=dict(sampler="latin_hypercube"), n=rng.randint(0, 20), fixed=[])
     else:
       inp.update(n=rng.randint(1, 15), force=rng.random() < 0.5, fixed=fixed)
+      if rng.random() < 0.3 and D["scale"] >= 0.5:
+        # a slab through the interior point so thin that the DOMAIN's rejection sampling gives up (or finds part of the points): the rows come from
+        # the hit-and-run padding the domain asks for, and the next call goes straight to hit-and-run (two calls are made)
+        dim = len(D["bounds"])
+        w = [rng.choice([-1, 1]) * rng.uniform(0.5, 2) / D["ratio"][j] if j < 2 or rng.random() < 0.5 else 0.0 for j in range(dim)]
+        r = sum(wi * qi for wi, qi in zip(w, D["q"]))
+        half = rng.uniform(1.5e-7, 6e-7) * max(abs(x * t) for x, t in zip(w, D["ratio"]))
+        inp.update(cons=list(D["cons"]) + [(w, r - half), ([-x for x in w], -r - half)], thin=half, force=False, fixed=[])
       # the sampler option is set on constrained domains as well (it must not take precedence over the constraints)
       if rng.random() < 0.5:
         o = dict(sampler=rng.choice(["latin_hypercube", "uniform", "halton", "sobol"]))
@@ -784,7 +1256,7 @@ def gen_search(rng):
     dim = len(D["bounds"])
     inp.update(bounds=D["bounds"][:3], cons=[], ppd=rng.choice([rng.randint(0, 4), [rng.randint(1, 4) for _ in range(min(3, dim))]]))
   elif kind == "direct":
-    inp.update(which=rng.choice(["uniform", "sobol", "halton", "lhs", "rejection", "padding", "hitandrun"]), n=rng.randint(1, 12),
+    inp.update(which=rng.choice(["uniform", "sobol", "halton", "lhs", "rejection", "padding", "padding", "hitandrun"]), n=rng.randint(1, 12),
                q=D["q"] if rng.random() < 0.6 else face_point(rng, D),   # the chain may start on a face of the polytope
                skip=rng.randint(0, 50), qseed=rng.randrange(10**6))
     if inp["which"] == "padding":
@@ -792,21 +1264,48 @@ def gen_search(rng):
       # polytopes carry a slab through the interior point q so thin that the default number of trials finds (almost) nothing; the start of
       # the chain is then the caller's interior point, or omitted (the sampler computes a Chebyshev centre of its own)
       inp["x0_given"] = rng.random() < 0.5
-      if rng.random() < 0.6 and D["scale"] >= 0.5:   # (an inscribed radius below 1e-8 is "degenerate" for the library: keep the slab above it)
+      if rng.random() < 0.75 and D["scale"] >= 0.5:   # (an inscribed radius below 1e-8 is "degenerate" for the library: keep the slab above it)
         dim = len(D["bounds"])
-        w = [rng.choice([-1, 1]) * rng.uniform(0.5, 2) if j < 2 or rng.random() < 0.5 else 0.0 for j in range(dim)]
+        w = [rng.choice([-1, 1]) * rng.uniform(0.5, 2) / D["ratio"][j] if j < 2 or rng.random() < 0.5 else 0.0 for j in range(dim)]
         r = sum(wi * qi for wi, qi in zip(w, D["q"]))
-        half = rng.uniform(1.5e-7, 6e-7) * max(abs(x) for x in w)
+        half = rng.uniform(1.5e-7, 6e-7) * max(abs(x * t) for x, t in zip(w, D["ratio"]))
         inp.update(cons=list(D["cons"]) + [(w, r - half), ([-x for x in w], -r - half)], q=D["q"], thin=half)
   elif kind == "cheby":
     inp.update(q=D["q"])
   elif kind == "cheby_bad":
     dim = len(D["bounds"])
-    w = [rng.choice([-1, 1]) * rng.uniform(0.2, 3) if j < 2 or rng.random() < 0.5 else 0.0 for j in range(dim)]
+    w = [rng.choice([-1, 1]) * rng.uniform(0.4, 2) / D["ratio"][j] if j < 2 or rng.random() < 0.5 else 0.0 for j in range(dim)]
     r = sum(wi * qi for wi, qi in zip(w, D["q"]))
     gap = rng.choice([0.0, 0.0, rng.uniform(1e-3, 1) * D["scale"]])          # zero-width slab, or empty by `gap`
     inp.update(cons=list(D["cons"]) + [(w, r), ([-x for x in w], -r + gap)], gap=gap)
   return kind, inp
+
+
+MIXED_SIG = "C08:mixed-scales:chebyshev-lp-solved-inaccurately"
+
+
+def mixed_scales(bounds):
+  """coordinate ranges differing by 1e5 or more"""
+  ws = [hi - lo for lo, hi in bounds if hi > lo]
+  return bool(ws) and max(ws) >= 1e5 * min(ws)
+
+
+def lp_inaccurate(kind, inp, bounds, what, observed, expected, oracle="independent dual-simplex solve of the Chebyshev LP"):
+  """The library's verdict on a FEASIBLE set falls short of the optimum of the Chebyshev LP: the set is refused (feasible = False / AssertionError
+  from set_constraint_list), or the reported radius is not maximal.  On boxes whose coordinate ranges differ by five or more orders of magnitude
+  this happens on the UNCHANGED tree: find_interior_point solves the LP with HiGHS' interior-point method, which on such badly scaled LPs stops
+  early or declares them infeasible (the simplex methods solve them).  Both outcomes are safe - a refused set hands out no point, a smaller ball
+  is still inside the polytope (that, and the centre being strictly inside, stay hard clauses) - so on such boxes they are reported under ONE
+  exact signature, and only once that signature is registered in KNOWN_FINDINGS.json (until then: void).  Elsewhere they are failures."""
+  if mixed_scales(bounds):
+    if any(f.get("signature") == MIXED_SIG for f in C.load_findings()):
+      return dict(signature=MIXED_SIG, what="mixed coordinate scales: " + what, input=dict(kind=kind, **inp), observed=observed, expected=expected, oracle=oracle)
+    return None
+  return _fail(kind, inp, what, observed, expected, oracle)
+
+
+def refused_feasible(kind, inp, bounds, observed):
+  return lp_inaccurate(kind, inp, bounds, "feasible set reported infeasible", observed, "feasible = True")
 
 
 def _fail(kind, inp, what, observed, expected, oracle="direct membership test in plain Python"):
@@ -824,7 +1323,18 @@ def cheby_reference(H):
   return (res.x[:-1], float(res.x[-1])) if res.status == 0 else (None, None)
 
 
+def oracle_hist(inp):
+  """a history on one live domain object (searcher / replay): run it with the property-level probes switched on and judge it"""
+  try:
+    obs = run_hist(inp, probe=True)
+  except Exception as e:
+    return _fail("history", dict(history=inp), f"raises:{type(e).__name__}", repr(e), "a result")
+  return judge_hist(inp, obs)
+
+
 def oracle(kind, inp):
+  if kind == "history":
+    return oracle_hist(inp["history"])
   dm, smp, geo = _lib()
   bounds, cons = inp["bounds"], inp["cons"]
   st = numpy.random.get_state()
@@ -832,6 +1342,10 @@ def oracle(kind, inp):
   try:
     with warnings.catch_warnings():
       warnings.simplefilter("ignore")
+      if cons and kind != "cheby_bad" and mixed_scales(bounds):
+        H = halfspace_matrix(bounds, cons)
+        if not geo.find_interior_point(H.copy())[2] and (cheby_reference(H)[1] or 0.0) >= 1e-7:
+          return refused_feasible(kind, inp, bounds, "feasible = False")
       return _oracle(kind, inp, dm, smp, geo, bounds, cons)
   except AssertionError as e:
     if kind == "cheby_bad":
@@ -872,14 +1386,16 @@ def _oracle(kind, inp, dm, smp, geo, bounds, cons):
         return None
       return _fail(kind, inp, "a domain was built on an empty or zero-width constraint set", None, "AssertionError from set_constraint_list")
     if not feas:
-      return _fail(kind, inp, "feasible set reported infeasible", dict(radius=float(radius)), "feasible = True")
+      return refused_feasible(kind, inp, bounds, dict(radius=float(radius)))
     A, b = H[:, :-1], -H[:, -1]
     nrm = numpy.sqrt((A * A).sum(axis=1))
     slack = b - A @ center
     if (slack < radius * nrm - 1e-7 * scale).any() or radius < 0:
       return _fail(kind, inp, "reported ball is not inside the polytope", dict(center=center.tolist(), radius=float(radius)), "a_i.x + r|a_i| <= b_i")
     if ref_r is not None and radius < ref_r - 1e-6 * max(1.0, ref_r):
-      return _fail(kind, inp, "reported radius is not maximal", dict(radius=float(radius)), dict(reference_radius=ref_r), "independent dual-simplex solve")
+      r = lp_inaccurate(kind, inp, bounds, "reported radius is not maximal", dict(radius=float(radius)), dict(reference_radius=ref_r), "independent dual-simplex solve")
+      if r:
+        return r
     # ball probes: points of B(center, radius) are feasible
     rs = numpy.random.RandomState(inp["seed"] % 1000)
     for _ in range(8):
@@ -928,10 +1444,14 @@ def _oracle(kind, inp, dm, smp, geo, bounds, cons):
       x0 = numpy.array(inp["q"]) if inp.get("x0_given", True) else None
       if inp.get("thin") and (cheby_reference(H)[1] or 0.0) < 2e-8:
         return None     # degenerate for the library (inscribed radius below its 1e-8 threshold): outside "feasible set"
+      if x0 is None and mixed_scales(bounds) and not geo.find_interior_point(H.copy())[2]:
+        return refused_feasible(kind, inp, bounds, "the sampler's own find_interior_point: feasible = False")
       out, ok = smp.generate_uniform_random_points_rejection_sampling_with_hitandrun_padding(n, B, A, b, x0)
       return _check_points(kind, inp, out, n, bounds, cons)
     out = smp.generate_hitandrun_random_points(n, numpy.array(inp["q"]), A, b)
     return _check_points(kind, inp, out, n, bounds, cons)
+  if inp.get("thin") and (cheby_reference(halfspace_matrix(bounds, cons))[1] or 0.0) < 2e-8:
+    return None     # degenerate for the library (inscribed radius below its 1e-8 threshold): outside "feasible set"
   d = make_domain(bounds, cons)
   fixed = [(int(k), float(v)) for k, v in inp.get("fixed", [])]
   if kind == "fixed_cons":
@@ -965,7 +1485,10 @@ def _oracle(kind, inp, dm, smp, geo, bounds, cons):
     d.force_hitandrun_sampling = bool(inp["force"])
     if inp.get("opts"):
       d.set_quasi_random_sampler_opts(dict(inp["opts"]))
-    return _check_points(kind, inp, w.generate_quasi_random_points_in_domain(inp["n"]), inp["n"], bounds, cons, fixed)
+    r = _check_points(kind, inp, w.generate_quasi_random_points_in_domain(inp["n"]), inp["n"], bounds, cons, fixed)
+    if inp.get("thin") and not r:     # ... and once more on the same object (after a failed rejection run it is in hit-and-run mode)
+      r = _check_points(kind, inp, w.generate_quasi_random_points_in_domain(inp["n"]), inp["n"], bounds, cons, fixed)
+    return r
   if kind == "near":
     out = w.generate_random_points_near_point(inp["n"], numpy.array(inp["point"], dtype=float), inp["std"], inp["on"])
     return _check_points(kind, inp, out, inp["n"], bounds, cons, fixed)
@@ -987,9 +1510,20 @@ def _oracle(kind, inp, dm, smp, geo, bounds, cons):
   raise ValueError(kind)
 
 
+# deterministic instance of MIXED_SIG: a slab of width 0.16 in [2.8, 5.8] x [-7e8, 6.2e8] (the interior point keeps a distance of 0.05 from both faces);
+# the library's interior-point LP solve declares it infeasible (the dual simplex finds radius 0.079)
+MIXED_WITNESS = dict(bounds=[[2.8148518750380545, 5.752661214128637], [-696176850.9030386, 619721278.424471]], q=[5.293953994768371, -324727485.40485626],
+                     steps=[dict(op="set", cons=[[[-2.221074315602849, 3.870803265271501e-09], -13.254932750890225],
+                                                 [[2.221074315602849, -3.870803265271501e-09], 12.904375745938289]], how="fresh", feasible=True)])
+
+
 def search(ctx, hints, broken):
   fails, n = [], 0
   rng = ctx.rng
+  r = oracle("history", dict(history=MIXED_WITNESS))     # emits MIXED_SIG (only once it is a registered known finding, see lp_inaccurate)
+  n += 1
+  if r:
+    fails.append(r)
   for h in hints:
     if "kind" in h and "input" in h:
       n += 1
@@ -1010,6 +1544,8 @@ def search(ctx, hints, broken):
 
 def hint_oracle(kind, inp):
   """A disagreeing correspondence case, re-judged by the independent oracle on the implementation's fresh output."""
+  if kind == "hist":
+    return oracle_hist(inp)
   try:
     out = run_impl(kind, inp)
   except Exception as e:
@@ -1069,3 +1605,9 @@ DESIGN_REF = "DESIGN.md section 7, C08"
 
 # --- second build round: additions to the claimed level
 LEVEL_TEXT += "; log-uniform sampling returns points inside the bounds (theorem over R)"
+# --- fifth session: histories on a live domain object
+LEVEL_TEXT += ("; HISTORIES on one live domain object (Model/DomainHist.v: the entry points written over the STORED half-spaces / unconstrained indices / centre / "
+               "hit-and-run flag): after any sequence of set_constraint_list calls (new list, the same list object edited in place, cleared, refused), flag changes, "
+               "samples and queries, every query answers what a freshly built domain with the constraints set LAST answers, hence the region clauses hold for them; the "
+               "unconstrained-index list is exactly the coordinates every constraint gives weight zero; an accepted fixed-coordinate wrapper fixes only such coordinates; "
+               "the constrained sampling entry point hands the sampler the full half-space system and overwrites only unconstrained columns (exact op-sequence correspondence)")
